@@ -826,7 +826,7 @@ func multiPlans(g *gen, thorough bool) []Plan {
 	for j := 0; j <= 4; j++ {
 		plans = append(plans, g.multiRotateWitness(j))
 	}
-	n, rounds := 70, 3
+	n, rounds := 50, 3
 	if thorough {
 		n, rounds = 400, 5
 	}
